@@ -36,8 +36,8 @@ CLAIMED = {
   note="Not covered: crash points between unlinks (the oldest-first order is what makes every crash image a gap-free suffix), completeness over whole histories ('once flushed and idle every obsolete chunk is gone' is checked for one purge step), real thread interleavings. Trusted: ghost file system, unlink contract, the sequentialised worker model of C04.",
   tech=TECH + "worker loop on scripted requests with ghost-truth unlink monitor + store-level purge/flush step harness + handler unit harness", ref="C08"),
  "C09": dict(
-  text="Decided for all values within the bounds, with the real CRC-32: (a) on the real Chunk::open over a four-record chunk, one byte of a complete record altered by an arbitrary non-zero mask - id bytes, payload byte, every byte of the checksum field, (thorough) every byte of the type word - in a record in the middle of the chunk and in the last record (value bytes): open returns an error and does not touch the file; (b) on the real RaftLog::open, a chunk file missing in the middle of the journal (gap of any size 1..10^6): open fails and no file is modified; (c) lemmas: the decoder reports UnexpectedEof only when the input is exhausted, handle_record_error never classifies a non-EOF non-zero tail as truncatable.",
-  note="KNOWN FINDINGS reported on every run: KF-C09-eof-absorbed (an alteration in the LAST record that makes the decoder want more bytes than the file holds is taken for a torn tail and silently cut away) and KF-C09-nonnewest-truncated (a refused open has already cut the incomplete tail off an older chunk). The main harnesses cover the complement: alterations that do not change a record's length, and structural alterations in non-last records. Not covered: alterations in the head snapshot's Option tags (explodes the decoder's path count), two altered bytes, reading an altered entry through Chunk::read_record after open (pread path). Same image/stub base as C02, checksums real.",
+  text="Decided for all values within the bounds, with the real CRC-32: (a) on the real Chunk::open over a four-record chunk, one byte of a complete record (the second record of a two-record chunk) altered by an arbitrary non-zero mask - the high bytes of the type word, both id bytes, every byte of the checksum field (quick: one id byte and one checksum byte; thorough: all thirteen positions, one per harness): open returns an error and does not touch the file; the block-wise zero-tail scan (verify_trailing_zeros, block size 8 through a stub) says 'zero' iff every byte of every block is zero, so a damaged record in front of a zero-filled tail is not absorbed; (b) on the real RaftLog::open, a chunk file missing in the middle of the journal (gap of any size 1..10^6): open fails and no file is modified; (c) lemmas: the decoder reports UnexpectedEof only when the input is exhausted, handle_record_error never classifies a non-EOF non-zero tail as truncatable.",
+  note="KNOWN FINDINGS reported on every run: KF-C09-eof-absorbed (an alteration in the LAST record that makes the decoder want more bytes than the file holds is taken for a torn tail and silently cut away) and KF-C09-nonnewest-truncated (a refused open has already cut the incomplete tail off an older chunk). The main harnesses cover alterations that do not change a record's length. Not covered (measured out of reach, DESIGN section 7): the low byte of the type word (the record is re-read as every other kind), an altered record that is followed by further records, payload bytes of an Append, the head snapshot's Option tags, two altered bytes, reading an altered entry through Chunk::read_record after open (pread path). Same image/stub base as C02, checksums real.",
   tech=TECH + "the real Chunk::open / RaftLog::open on images with one byte altered by a symbolic mask, real CRC-32; known-finding twin harnesses", ref="C09"),
  "C10": dict(
   text="Decided for all values within the bounds, on the real Chunk::open (RecordIterator, codec, handle_record_error, verify_trailing_zeros, set_len + sync_all) over a chunk of three complete records followed by a fourth of every kind (SaveVote, Append, TruncateAfter(None|Some), PurgeUpto, State): cut at EVERY byte position inside the fourth record (quick: vote, state and append subsets; thorough: all kinds, all positions) open succeeds, returns exactly the three complete records with their exact offsets and contents, cuts the file back to their end durably and records the truncation; a zero-filled tail of 3, 4, 9 or 20 bytes (real CRC) likewise; with truncation disabled every such image makes open fail and leaves the file untouched; a complete chunk is returned whole and unmodified. At RaftLog::open level: a torn tail with truncation disabled is refused and nothing in the directory is touched or created (the enabled case, the fresh chunk after the cut and the write that follows are C05's harnesses). Plus the unit lemmas of handle_record_error / verify_trailing_zeros / RecordIterator.",
